@@ -861,6 +861,7 @@ func Main(t *testing.T, c Check) {
 	_ = os.MkdirAll(filepath.Join(dir, "replays"), 0o755)
 	exit := 0
 	nviol := 0
+	var unconfirmed []string
 	var vioSamples []map[string]interface{}
 	for _, sig := range sigOrder {
 		vs := bySig[sig]
@@ -911,7 +912,12 @@ func Main(t *testing.T, c Check) {
 				}
 			}
 			if reproduced == 0 {
-				res.engineErrs = append(res.engineErrs, fmt.Sprintf("violation sig=%s scenario=%q choices=[%s] case=%q reproduced 0/%d times; detail: %s", sig, v.Scenario, csv(v.Choices), v.Case, reruns, trunc(v.Detail, 600)))
+				// observed once, never again: neither a fresh process replaying that execution (3x, for up to six
+				// recorded executions) nor a re-run of the whole scenario shows it. Not believed, not reported as a
+				// violation, and not an engine error either (a check must stay quiet on a tree where the property
+				// holds); it is written down for diagnosis and makes the run non-exhaustive.
+				msg := fmt.Sprintf("sig=%s scenario=%q choices=[%s] case=%q observed in %d execution(s), reproduced 0/%d times; detail: %s", sig, v.Scenario, csv(v.Choices), v.Case, len(vs), reruns, trunc(v.Detail, 3000))
+				unconfirmed = append(unconfirmed, msg)
 				continue
 			}
 			if reproduced != reruns {
@@ -984,7 +990,17 @@ func Main(t *testing.T, c Check) {
 	cov["scenarios_capped"] = capped
 	cov["scenarios_abandoned_after_repeated_violation"] = abandoned
 	cov["executions_skipped_known_crashers"] = skipped
-	cov["exhaustive"] = capped == 0 && abandoned == 0 && len(res.engineErrs) == 0 && only == nil
+	cov["exhaustive"] = capped == 0 && abandoned == 0 && len(res.engineErrs) == 0 && len(unconfirmed) == 0 && only == nil
+	if len(unconfirmed) > 0 {
+		cov["unconfirmed_observations"] = unconfirmed
+		_ = os.MkdirAll(filepath.Join(dir, "bin"), 0o755)
+		if f, err := os.OpenFile(filepath.Join(dir, "bin", "unconfirmed-"+c.ID+".log"), os.O_CREATE|os.O_APPEND|os.O_WRONLY, 0o644); err == nil {
+			for _, u := range unconfirmed {
+				fmt.Fprintf(f, "%s tier=%s %s\n", time.Now().Format(time.RFC3339), tier, u)
+			}
+			_ = f.Close()
+		}
+	}
 	if execs > 0 {
 		cov["states"] = states
 		cov["transitions"] = trans
@@ -1020,6 +1036,9 @@ func Main(t *testing.T, c Check) {
 	}
 	fmt.Printf("SUMMARY property=%s tier=%s scenarios=%d executions=%d cases=%d states=%d transitions=%d outcomes=%d capped=%d abandoned=%d violations=%d wall=%.1fs\n",
 		c.ID, tier, len(res.srecs), execs, cases, states, trans, outcomes, capped, abandoned, nviol, time.Since(start).Seconds())
+	for _, u := range unconfirmed {
+		fmt.Println("UNCONFIRMED-OBSERVATION (not reported)", trunc(u, 600))
+	}
 	if len(res.engineErrs) > 0 {
 		for _, e := range res.engineErrs {
 			fmt.Println("ENGINE-ERROR", trunc(e, 2000))
